@@ -20,6 +20,9 @@ PINNED_ENV = {
     "PYTHONDONTWRITEBYTECODE": "1",
     "MPLBACKEND": "Agg",
     "JAXLEY_VERIF": "1",
+    # keep JAX's internal frames in tracebacks: the harness classifies an exception by its innermost frame
+    # (inside /verif = harness error, anywhere else = behaviour of the system under test)
+    "JAX_TRACEBACK_FILTERING": "off",
 }
 
 _ready = False
